@@ -116,7 +116,7 @@ class G:
             rest = T.ONE
             for x in xs[1:]:
                 rest = rest - x * x
-            self.rules.append(('sq', xs[0], rest, '%s unit: %s^2 = 1 - rest' % (name, names[0])))
+            self.rule_sq(xs[0], rest, '%s unit: %s^2 = 1 - rest' % (name, names[0]))
             return xs
         if self.mode == 'sample':
             if all(nm in self.env for nm in names):
@@ -151,12 +151,33 @@ class G:
             self.ctx.assume(cond, tag=note)
 
     def rule_sq(self, var, rhs, name):
+        """oriented equational hypothesis var^2 = rhs (must also be assumed as a requires by the caller)"""
         if self.mode == 'symbolic':
             self.rules.append(('sq', var, rhs, name))
+            if self.alg is not None:
+                self.alg.add_var_square_rule(var, SR.lift(rhs), name)
+
+    def use_eq(self, var, rhs, name):
+        """derive `var == rhs` on the current path (an obligation, discharged from the path condition) and
+        use it as a substitution in the ring normaliser for the rest of this path"""
+        if self.mode == 'symbolic':
+            self.ctx.oblige('derived: ' + name, T.eq(var, rhs), kind='lemma')
+            self.ctx.assume(T.eq(var, rhs), tag='derived')
+            self.alg.add_var_linear_rule(var, SR.lift(rhs), name)
+
+    def use_sq(self, var, rhs, name):
+        """derive `var^2 == rhs` on the current path (obligation) and use it as a rewrite rule"""
+        if self.mode == 'symbolic':
+            self.ctx.oblige('derived: ' + name, T.eq(var * var, rhs), kind='lemma')
+            self.ctx.assume(T.eq(var * var, rhs), tag='derived')
+            self.alg.add_var_square_rule(var, SR.lift(rhs), name)
+            self.alg.rf_cache = {k: v for k, v in self.alg.rf_cache.items() if not (isinstance(k, tuple) and k and k[0] == 'cmp')}
 
     def rule_prod(self, v1, v2, rhs, name):
         if self.mode == 'symbolic':
             self.rules.append(('pr', v1, v2, rhs, name))
+            if self.alg is not None:
+                self.alg.add_var_prod_rule(v1, v2, SR.lift(rhs), name)
 
     # -- obligations ------------------------------------------------------------------------------
     def eq(self, name, a, b, tol=None, scale=None):
